@@ -9,7 +9,8 @@ from vlib.par import pmap, timeout_failure
 
 PROPERTY = 'C06'
 LEVEL = 'other'
-TARGETS = [('strings', 'graphtage.StringFormatter.print_StringNode'),
+TARGETS = [('strings', 'graphtage.StringFormatter.print_StringNode'), ('levenshtein_distance', 'levenshtein.levenshtein_distance'),
+           ('nodes', 'graphtage.LeafNode.edits'),
            ('sequences', 'sequences.FixedLengthSequenceEdit.edits'), ('editdistance', 'levenshtein.EditDistance.edits')]
 TRUSTED = ['the monitoring printer reads the live ANSI context stack (background RED = removed, GREEN = inserted) instead of '
            'parsing combining characters out of the text', 'json.loads as the oracle for the reconstructed texts']
@@ -154,7 +155,7 @@ def replay(entry, repo_root):
 
 
 def bounded(tier, seed, repo_root):
-    atoms = [0, 12, "ab", 'q"t', "a -> b", "~~x++", "é\n", None, True]
+    atoms = [0, 12, "", "ab", 'q"t', "a -> b", "~~x++", "é\n", None, True]
     docs = D.enum_docs(3 if tier == 'quick' else 4, atoms=atoms, keys=['a', 'b'])
     budget = 40000 if tier == 'quick' else 400000
     pairs, exhaustive = D.sample_pairs(docs, budget, seed)
